@@ -611,6 +611,60 @@ func c18Client(r *vf.Run, t *testing.T, id string, rng *rand.Rand) {
 				checkQ(fmt.Sprintf("after a request following SETTINGS #%d", k+1))
 			}
 		}
+		// a request header block of exactly one, two or three full frames (see the server role for how the length is reached)
+		if !failed && rng.Intn(3) == 0 {
+			frameSize := int(ps.frame)
+			if pendingLower > 0 {
+				frameSize = int(pendingLower)
+			}
+			mult := 1 + rng.Intn(3)
+			target := mult * frameSize
+			if target <= 200000 {
+				fill := target - 150
+				for attempt := 0; attempt < 6 && !failed && fill > 0; attempt++ {
+					before := len(e.RequestsSeen())
+					nreq++
+					tag := fmt.Sprintf("%s.x%d", id, nreq)
+					n := fill
+					calls = append(calls, e.Do(tag, func(req *fasthttp.Request) {
+						req.SetRequestURI("https://s.example/" + tag)
+						req.Header.Add("x-vtag", tag)
+						req.Header.Add("x-exact", strings.Repeat("X", n))
+					}))
+					rt.Wait()
+					fs := e.P.Frames()
+					var sid uint32
+					got, ended := 0, false
+					for i := len(fs) - 1; i >= 0 && sid == 0; i-- {
+						if fs[i].Type == wire.THeaders {
+							sid = fs[i].Stream
+						}
+					}
+					for _, f := range rt.FramesFor(fs, sid) {
+						if f.Type == wire.THeaders || f.Type == wire.TContinuation {
+							got += int(f.Len)
+							ended = ended || f.EndHeaders
+						}
+					}
+					checkQ(fmt.Sprintf("after a request whose header block has %d octets (aiming at %d x %d)", got, mult, frameSize))
+					if sid != 0 && !ended && !failed {
+						fail("header-block-not-ended", fmt.Sprintf("the request on stream %d was sent as a header block of %d octets (%d x MAX_FRAME_SIZE %d) in which no frame carries END_HEADERS, and the client is quiescent", sid, got, got/frameSize, frameSize))
+					}
+					if len(e.RequestsSeen()) == before && !failed {
+						break
+					}
+					answerAll()
+					if got == target {
+						r.Inc("request_header_blocks_of_exactly_k_full_frames", 1)
+						break
+					}
+					if got == 0 {
+						break
+					}
+					fill += target - got
+				}
+			}
+		}
 		if !failed {
 			switch probe {
 			case "concurrency":
